@@ -128,11 +128,12 @@ func (c10) Plan(tier string) fw.Plan {
 }
 
 type c10cfg struct {
-	name   string
-	budget int64 // effective budget for the allocation bound (0 = no bound checked)
-	depth  int64
-	kind   string // dagcbor | cbor | dagjson | json | raw
-	dec    func(na datamodel.NodeAssembler, in []byte) error
+	name     string
+	budget   int64 // effective budget for the allocation bound (0 = no bound checked)
+	prealloc int64 // effective MaxCollectionPrealloc (dag-cbor)
+	depth    int64
+	kind     string // dagcbor | cbor | dagjson | json | raw
+	dec      func(na datamodel.NodeAssembler, in []byte) error
 }
 
 func c10DrawCfg(rng *fw.RNG) c10cfg {
@@ -170,7 +171,11 @@ func c10DrawCfg(rng *fw.RNG) c10cfg {
 		if rng.Chance(1, 6) {
 			return c10cfg{name: "dagcbor.Decode", kind: "dagcbor", budget: 10 << 20, depth: 1024, dec: func(na datamodel.NodeAssembler, in []byte) error { return dagcbor.Decode(na, bytes.NewReader(in)) }}
 		}
-		return c10cfg{name: fmt.Sprintf("dagcbor%+v", o), kind: "dagcbor", budget: b, depth: d, dec: func(na datamodel.NodeAssembler, in []byte) error { return o.Decode(na, bytes.NewReader(in)) }}
+		pa := o.MaxCollectionPrealloc
+		if pa == 0 {
+			pa = 1024
+		}
+		return c10cfg{name: fmt.Sprintf("dagcbor%+v", o), kind: "dagcbor", budget: b, prealloc: pa, depth: d, dec: func(na datamodel.NodeAssembler, in []byte) error { return o.Decode(na, bytes.NewReader(in)) }}
 	}
 }
 
@@ -244,6 +249,58 @@ func c10HostileCBOR(rng *fw.RNG, thorough bool) ([]byte, string) {
 		b := binary.BigEndian.AppendUint32([]byte{major<<5 | 26}, uint32(n))
 		return append(b, 0x00, 0x00), fmt.Sprintf("major %d claims %d, two items follow", major, n)
 	}
+}
+
+// c10BudgetRelativeCBOR: nested collections whose declared lengths are chosen RELATIVE TO THE CONFIGURED
+// BUDGET — each level claims a share of what a correct decoder has left (half, a third, all but one, or the
+// preallocation cap) — nested as deep as the depth limit allows, after which the input simply ends. A decoder
+// that compares a claim with the remaining budget but does not deduct it, or that preallocates per level what
+// it should have charged once, stays inside the bound for any single header and leaves it only here
+// (round-3 seed C10-9).
+func c10BudgetRelativeCBOR(rng *fw.RNG, cfg c10cfg) ([]byte, string) {
+	levels := 2 + rng.Intn(30)
+	if rng.Chance(1, 3) {
+		levels = int(cfg.depth) - rng.Intn(2)
+	}
+	if levels > 1100 {
+		levels = 1100
+	}
+	if levels < 1 {
+		levels = 1
+	}
+	major := []byte{4, 5}[rng.Intn(2)]
+	mixed := rng.Chance(1, 3)
+	remaining := cfg.budget
+	var b []byte
+	share := []int64{2, 3, 1}[rng.Intn(3)]
+	for i := 0; i < levels; i++ {
+		claim := remaining / share
+		if share == 1 {
+			claim = remaining - 1
+		}
+		if rng.Chance(1, 4) {
+			claim = cfg.prealloc
+		}
+		if claim < 1 {
+			claim = 1
+		}
+		mj := major
+		if mixed && i%2 == 1 {
+			mj = 9 - major
+		}
+		b = append(b, be64(mj, uint64(claim))[0]&0xe0|26)
+		b = binary.BigEndian.AppendUint32(b, uint32(claim))
+		if mj == 5 {
+			b = append(b, 0x61, byte('a'+i%26))
+		}
+		if remaining > claim {
+			remaining -= claim
+		}
+	}
+	if rng.Bool() {
+		b = append(b, 0x00)
+	}
+	return b, fmt.Sprintf("%d nested major-%d headers each claiming 1/%d of the remaining budget %d (prealloc cap %d), then the input ends", levels, major, share, cfg.budget, cfg.prealloc)
 }
 
 func c10HostileJSON(rng *fw.RNG) ([]byte, string) {
@@ -389,6 +446,8 @@ func c10Decoder(c *fw.Ctx, rng *fw.RNG, i int) {
 	default:
 		if isJSON {
 			in, desc = c10HostileJSON(rng)
+		} else if cfg.kind == "dagcbor" && cfg.prealloc > 0 && rng.Chance(1, 3) {
+			in, desc = c10BudgetRelativeCBOR(rng, cfg)
 		} else {
 			in, desc = c10HostileCBOR(rng, thorough)
 		}
